@@ -88,6 +88,12 @@ fn alphabet(b: &Built) -> Vec<Op> {
         a.push(Op::Clock(1));
         a.push(Op::Clock(100));
         a.push(Op::CollectProtocol { v2: true });
+        // the fee setters in the middle of a trading history: on an adaptive-fee pool the stored rate is only the BASE of what a
+        // step is charged (a base of 0 still leaves the adaptive part, of which the protocol takes its share)
+        a.push(Op::SetFeeRate(0));
+        a.push(Op::SetFeeRate(3_000));
+        a.push(Op::SetProtocolFeeRate(0));
+        a.push(Op::SetProtocolFeeRate(2_500));
         return a;
     }
     if b.name.contains("dust") {
